@@ -20,6 +20,7 @@ static void check_case(vg::Src& s, vh::Ctx& c)
     va::GridSpec sp = vg::gen_grid(s, o);
     vm::ModelGrid m = vm::build_model(sp);
     c.desc = vm::describe(sp);
+    c.announce();
     auto g = va::make_grid(sp);
     c.expect(g->size() == m.n, "size", "size " + std::to_string(g->size()));
 
